@@ -46,6 +46,16 @@ PINS = [
     'mesonbuild.mintro:generate_introspection_file', 'mesonbuild.mintro:list_tests', 'mesonbuild.mintro:list_benchmarks',
     'mesonbuild.backend.backends:Backend.get_introspection_data', 'mesonbuild.backend.backends:Backend.create_test_serialisation',
     'mesonbuild.backend.backends:Backend.create_install_data', 'mesonbuild.backend.backends:TargetInstallData',
+    'mesonbuild.backend.backends:Backend.generate_target_install', 'mesonbuild.backend.backends:Backend.generate_header_install',
+    'mesonbuild.backend.backends:Backend.generate_man_install', 'mesonbuild.backend.backends:Backend.generate_data_install',
+    'mesonbuild.backend.backends:Backend.generate_subdir_install', 'mesonbuild.backend.backends:Backend.generate_symlink_install',
+    'mesonbuild.backend.backends:Backend.generate_emptydir_install', 'mesonbuild.backend.backends:Backend.generate_depmf_install',
+    'mesonbuild.backend.backends:Backend.generate_custom_install_script', 'mesonbuild.backend.backends:InstallDataBase',
+    'mesonbuild.backend.backends:SubdirInstallData', 'mesonbuild.backend.backends:InstallSymlinkData',
+    'mesonbuild.backend.backends:Backend.get_regen_filelist', 'mesonbuild.backend.backends:Backend.guess_install_tag',
+    'mesonbuild.minstall:get_destdir_path', 'mesonbuild.minstall:Installer.install_targets', 'mesonbuild.minstall:Installer.install_headers',
+    'mesonbuild.minstall:Installer.install_man', 'mesonbuild.minstall:Installer.install_data', 'mesonbuild.minstall:Installer.install_subdirs',
+    'mesonbuild.minstall:Installer.should_install',
     'mesonbuild.backend.ninjabackend:NinjaBackend.get_introspection_data',
     'mesonbuild.backend.ninjabackend:NinjaBackend.create_target_source_introspection',
     'mesonbuild.utils.core:EnvironmentVariables',
@@ -211,6 +221,7 @@ def install_block(rng: random.Random, root: str, files: T.Dict[str, str]) -> T.L
     files[root + 'c15x.h'] = '/* h */\n'
     files[root + 'c15xdir/c15x2.h'] = '/* h2 */\n'
     files[root + 'c15x.3'] = '.TH X\n'
+    files[root + 'c15x.de.3'] = '.TH X\n'
     files[root + 'c15xtree/f.txt'] = 'f\n'
     files[root + 'c15xtree/in/g.txt'] = 'g\n'
     lines.append(f"install_data('c15x-a.txt', 'c15x-b.txt', install_dir: {d()}" + (", rename: ['ra.txt', 'd/rb.txt']" if rng.random() < 0.5 else '') +
@@ -219,6 +230,8 @@ def install_block(rng: random.Random, root: str, files: T.Dict[str, str]) -> T.L
     lines.append("install_headers('c15x.h', 'c15xdir/c15x2.h'" + (", subdir: 'c15sub'" if r < 0.4 else f", install_dir: {d()}" if r < 0.7 else '') +
                  (', preserve_path: true' if rng.random() < 0.5 else '') + ')')
     lines.append("install_man('c15x.3'" + (", locale: 'de'" if rng.random() < 0.5 else '') + (f", install_dir: {d()}" if rng.random() < 0.3 else '') + ')')
+    if rng.random() < 0.6:   # the locale is part of the file name and is stripped on installation
+        lines.append("install_man('c15x.de.3', locale: 'de'" + (f", install_dir: {d()}" if rng.random() < 0.3 else '') + ')')
     lines.append(f"install_subdir('c15xtree', install_dir: {d()}" + (', strip_directory: true' if rng.random() < 0.5 else '') +
                  (", exclude_files: ['in/g.txt']" if rng.random() < 0.4 else '') + (", install_tag: 'tree'" if rng.random() < 0.4 else '') + ')')
     if rng.random() < 0.5:
@@ -429,11 +442,15 @@ def install_records(path: str) -> dict:
     recs = []
     for t in d.targets:
         recs.append({'kind': 't', 'dtype': '', 'path': os.path.join(d.build_dir, t.fname), 'ipath': t.outdir, 'tag': t.tag or '',
-                     'sub': t.subproject or ''})
+                     'sub': t.subproject or '', 'install_rpath': t.install_rpath or None})
     for kind, lst in (('d', d.data), ('h', d.headers), ('m', d.man), ('s', d.install_subdirs)):
         for i in lst:
             recs.append({'kind': kind, 'dtype': i.data_type or '', 'path': i.path, 'ipath': i.install_path, 'tag': i.tag or '',
                          'sub': i.subproject or ''})
+            if kind == 's':
+                ex = i.exclude or (set(), set())
+                recs[-1]['exclude_files'] = sorted(ex[0])
+                recs[-1]['exclude_dirs'] = sorted(ex[1])
     for s in d.symlinks:
         recs.append({'kind': 'l', 'dtype': '', 'path': s.name, 'ipath': s.install_path, 'tag': s.tag or '', 'sub': s.subproject or ''})
     return {'prefix': d.prefix, 'build_dir': d.build_dir, 'source_dir': d.source_dir, 'recs': recs,
@@ -1004,6 +1021,17 @@ def oracle_install(raw: dict) -> dict:
             else:
                 viol.append((f"install_plan:installed-but-not-listed:{SECTION[r['kind']]}", f"{r['path']!r} -> {dest_used(prefix, r)!r} is installed but "
                              f"not in intro-install_plan.json", {'record': r}))
+    for r in prs:
+        # the remaining fields of a plan entry, where exactly one entry and one record share the source
+        same = [p for p in plan if p[1] == r['path'] and p[0] == (r['dtype'] or SECTION[r['kind']])]
+        if len(same) == 1 and len([q for q in prs if q['path'] == r['path'] and q['kind'] == r['kind']]) == 1:
+            e = same[0][2]
+            if r['kind'] == 's' and (sorted(e.get('exclude_files', [])) != r['exclude_files'] or sorted(e.get('exclude_dirs', [])) != r['exclude_dirs']):
+                viol.append(('install_plan:exclude-lists-differ', f"{r['path']!r}: plan excludes files {e.get('exclude_files')} dirs {e.get('exclude_dirs')}; "
+                             f"`meson install` skips files {r['exclude_files']} dirs {r['exclude_dirs']}", {'record': r, 'plan_entry': e}))
+            if r['kind'] == 't' and (e.get('install_rpath') or None) != r['install_rpath']:
+                viol.append(('install_plan:install_rpath-differs', f"{r['path']!r}: plan says install_rpath {e.get('install_rpath')!r}; `meson install` sets "
+                             f"{r['install_rpath']!r}", {'record': r, 'plan_entry': e}))
     for p, ok in zip(plan, b2):
         if not ok and not any(p[1] == r['path'] for r in prs):
             viol.append((f'install_plan:listed-but-not-installed:{p[0]}', f'{p[1]!r} is in intro-install_plan.json but `meson install` does not install it',
@@ -1120,6 +1148,51 @@ def oracle_real_install(raw: dict, jd: str) -> dict:
     return {'answer': 'OK', 'violations': viol, 'runs': [r[0] for r in runs]}
 
 
+TRANSFORMATIONS = ['man-locale-stripped', 'data-renamed', 'preserve_path-subdirectory', 'subdir-strip_directory', 'subdir-kept-name',
+                   'library-alias-symlink', 'install_dir-list-distinct-dirs', 'install_dir-list-hole', 'header-subdir', 'placeholder-destination',
+                   'literal-destination', 'absolute-destination']
+
+
+def transformations(raw: dict) -> T.Dict[str, int]:
+    """how often each documented source-name -> installed-name transformation is NOT the identity in this build directory
+    (a corpus in which one of them never acts would make the destination comparison vacuous for it)"""
+    inst = raw['install']
+    prefix = inst['prefix']
+    n = {k: 0 for k in TRANSFORMATIONS}
+    for r in inst['recs']:
+        src_base = os.path.basename(r['path'])
+        dest = dest_used(prefix, r)
+        if r['kind'] == 'm' and os.path.basename(dest) != src_base:
+            n['man-locale-stripped'] += 1
+        if r['kind'] == 'd' and not r['dtype'] and os.path.basename(dest) != src_base:
+            n['data-renamed'] += 1
+        if r['kind'] in ('d', 'h') and not r['dtype'] and r['path'].startswith(inst['source_dir']):
+            parent = os.path.basename(os.path.dirname(r['path']))
+            if parent and os.path.basename(os.path.dirname(slim(dest))) == parent and os.path.basename(dest) == src_base:
+                n['preserve_path-subdirectory'] += 1
+        if r['kind'] == 's':
+            n['subdir-strip_directory' if os.path.basename(slim(dest)) != src_base else 'subdir-kept-name'] += 1
+        if r['kind'] == 'l' and os.path.basename(r['path']).startswith('lib'):
+            n['library-alias-symlink'] += 1
+        if r['kind'] == 'h' and slim(os.path.dirname(dest)) != slim(os.path.join(prefix, 'include')) and r['ipath'].rstrip('/').startswith('include/'):
+            n['header-subdir'] += 1
+    by_target: T.Dict[str, T.List[str]] = {}
+    installed_t = {r['path']: r for r in inst['recs'] if r['kind'] == 't'}
+    for t in raw['targets']:
+        if len(t['filename']) > 1:
+            dirs = {slim(os.path.dirname(dest_used(prefix, installed_t[f]))) for f in t['filename'] if f in installed_t}
+            if len(dirs) > 1:
+                n['install_dir-list-distinct-dirs'] += 1
+            if dirs and any(f not in installed_t for f in t['filename']):
+                n['install_dir-list-hole'] += 1
+    for entries in raw['install_plan'].values():
+        for e in entries.values():
+            d = e['destination']
+            n['placeholder-destination' if d.startswith('{') and not d.startswith('{prefix}') else 'absolute-destination' if d.startswith('/') or
+              d.startswith('{prefix}//') else 'literal-destination'] += 1
+    return n
+
+
 def oracle_options(raw: dict) -> dict:
     rows: T.Dict[str, T.List[str]] = {}
     for r in raw['buildoptions']:
@@ -1157,8 +1230,15 @@ def oracle_files(raw: dict) -> dict:
     listed = {f for f in raw['buildsystem_files'] if is_build_def(raw, f)}
     opened = {f for f in raw['opened'] if is_build_def(raw, f)}
     viol = []
+    def cls(f):
+        if f in raw['machine_files']:
+            return 'machine-file'
+        m = re.match(r'^(.*/subprojects/[^/]+)/', f)
+        if m and m.group(1).startswith(raw['src']) and not any(x.startswith(m.group(1) + '/') for x in listed):
+            return 'subproject-that-failed-to-configure'     # nothing of that subproject is listed at all
+        return os.path.basename(f)
     for f in sorted(opened - listed):
-        viol.append(('buildsystem_files:read-but-not-listed:' + ('machine-file' if f in raw['machine_files'] else os.path.basename(f)), f'{f!r} was read during configuration but is not in '
+        viol.append(('buildsystem_files:read-but-not-listed:' + cls(f), f'{f!r} was read during configuration but is not in '
                      f'intro-buildsystem_files.json', {'file': f, 'listed': sorted(listed)}))
     for f in sorted(listed - opened):
         viol.append(('buildsystem_files:listed-but-not-read:' + os.path.basename(f), f'{f!r} is in intro-buildsystem_files.json but was never opened',
@@ -1342,6 +1422,8 @@ def evaluate(ctx: Ctx, results: T.List[dict], jobs_by_id: T.Dict[str, dict]) -> 
             ctx.tag('buildsystem_files: regeneration-dependency entries (configure_file inputs / command scripts), not judged', len(nonclass))
         if raw['machine_files']:
             ctx.tag('machine-files:' + machine_of(job))
+        for k, v in transformations(raw).items():
+            ctx.tag('transformation acts: ' + k, v)
         if raw['install']['emptydirs']:
             ctx.tag('install_emptydir (not part of the property, not listed by intro-install_plan.json)')
         if 'real_install' in r['oracle']:
@@ -1356,6 +1438,10 @@ def evaluate(ctx: Ctx, results: T.List[dict], jobs_by_id: T.Dict[str, dict]) -> 
         if len(ctx.samples) < 4:
             ctx.sample({'job': job['id'], 'args': job['args'], 'targets': len(raw['targets']), 'tests': len(raw['tests']),
                         'answers': {p: r['oracle'][p]['answer'][:60] for p in PARTS}})
+
+
+def results_have_corpus(results: T.List[dict]) -> bool:
+    return sum(1 for r in results if r['ok'] and r['job']['kind'] == 'corpus' and r['job'].get('name') in ('inst', 'instshapes')) >= 4
 
 
 def run_jobs(jobs: T.List[dict]) -> T.List[dict]:
@@ -1416,6 +1502,11 @@ def run(ctx: Ctx) -> None:
     results = run_jobs(jobs)
     evaluate(ctx, results, jobs_by_id)
     getenv_correspondence(ctx)
+    if results_have_corpus(results):
+        for k in TRANSFORMATIONS:
+            if not ctx.dist.get('transformation acts: ' + k):
+                ctx.obligation_failed('vacuity', f'no configured project exercises the transformation {k!r} as a non-identity: the destination '
+                                                  f'comparison would be vacuous for it')
     fails = ctx.extra.get('configure_failures', [])
     if len(fails) > max(2, len(jobs) // 5):
         ctx.obligation_failed('configure', f'{len(fails)} of {len(jobs)} meson setup runs failed: {fails[0]}')
